@@ -72,3 +72,19 @@ package cluster
 //@   assert @conn.Close: [failed-exchange-conn-not-reused] (exFailed && lastConn == conn) ==> marked
 //@   loop 1 invariant [none] true
 //@   ensures [last-exchange-bytes] result2 == nil ==> (!exFailed && result0 == lastBytes)
+//
+// ---- C21: a backup fetched from another node is complete or an error -----------------------------------
+// Client.Backup: the peer always sends a gzip stream; whatever the caller asked for, the bytes
+// received go through a gzip reader, whose end-of-stream check (valid trailer, else
+// io.ErrUnexpectedEOF) is what tells a complete stream from a connection that was cut; nil is
+// returned only when that copy ended without error.
+//@ func (*Client) Backup
+//@   requires [recv] c != nil && br != nil
+//@   ghost var viaGz bool = false
+//@   ghost var cpErr error = nil
+//@   ghost var copied bool = false
+//@   ghost update @gzip.NewReader: viaGz = (result1 == nil)
+//@   assert @io.Copy: [stream-end-verified] viaGz
+//@   ghost update @io.Copy: cpErr = result1
+//@   ghost update @io.Copy: copied = true
+//@   ensures [nil-means-complete] result == nil ==> (copied && cpErr == nil && viaGz)
